@@ -40,7 +40,7 @@ func (E *Engine) inputTerms(st *State, name string, v *Val) []inputTerm {
 			comp := compName(elemsRoot(et), "")
 			a := E.heapArr(st.heap, comp, SInt, true)
 			for i := 0; i < witnessPrefix; i++ {
-				out = append(out, inputTerm{fmt.Sprintf("%s[%d]", name, i), sx("select", sx("select", a, v.F[0].S), add(v.F[1].S, intLit(int64(i))))})
+				out = append(out, inputTerm{fmt.Sprintf("%s[%d]", name, i), sx("select", sx("select", a, v.F[0].S), E.at(v.F[1].S, intLit(int64(i))))})
 			}
 		}
 	case "struct", "abstract", "array", "tuple":
